@@ -574,6 +574,17 @@ def fam_auto(rng, n, thorough=False):
         steps.append({"op": "sleep", "ms": 1000})
     steps.append({"op": "quiesce", "ms": 1000})
     out.append({"name": "auto/sr_across_cleaner_tick", "conf": conf(sr_enable=True), "endpoints": customs(1), "steps": steps})
+    # renewal: "not repeated within 30 seconds" from both sides - senders A and B on one channel over 63 s; a burst is due
+    # for A at 0.1, 31.5 and 62.5 s, for B at 20 and 52 s, and for none of A at 10 / 25 / 45 s, B at 33 s (one long scenario)
+    t = Tags(89500)
+    steps = opens(1)
+    at = 0
+    for (sec, sysid) in [(0.1, 2), (10, 2), (20, 3), (25, 2), (31.5, 2), (33, 3), (45, 2), (52, 3), (62.5, 2)]:
+        steps.append({"op": "sleep", "ms": int(sec * 1000) - at})
+        at = int(sec * 1000)
+        steps.append(feed(0, "hb", t.next(), sys=sysid, comp=1, autopilot=3))
+    steps.append({"op": "quiesce", "ms": 800})
+    out.append({"name": "auto/sr_renewal", "conf": conf(sr_enable=True), "endpoints": customs(1), "steps": steps})
     # stream requests: histories of heartbeats from many sources interleaved with other traffic
     for j in range(n):
         t = Tags(90000 + 1000 * j)
